@@ -363,17 +363,34 @@ def c06_f(ctx: Ctx):
         else:
             acc = accs[0]
             n_ok = 0
+            from ..cfg import cond_atoms
+            work = []
             for n in body_nodes(f):
                 if not (isinstance(n, ast.Assign) and len(n.targets) == 1 and isinstance(n.targets[0], ast.Name) and n.targets[0].id == acc):
                     continue
-                v = n.value
+                if isinstance(n.value, ast.IfExp):
+                    # `acc = A if C else B` is two assignments, each under its half of the condition
+                    work.append((n, n.value.body, set(cond_atoms(n.value.test, True))))
+                    work.append((n, n.value.orelse, set(cond_atoms(n.value.test, False))))
+                else:
+                    work.append((n, n.value, set()))
+            for (n, v, extra) in work:
                 if isinstance(v, ast.Constant) and v.value is None:
                     continue
+                # an assignment that can only be reached while the running result is still unset (every reaching definition is the `= None` initialisation)
+                if acc not in names_in(v):
+                    try:
+                        rd = common.reaching_defs(ctx, f, acc, n)
+                    except Exception:
+                        rd = []
+                    if rd and all(isinstance(d, ast.Constant) and d.value is None for d in rd):
+                        n_ok += 1
+                        continue
                 if acc in names_in(v):
                     isect = (isinstance(v, ast.Call) and isinstance(v.func, ast.Attribute) and v.func.attr == "intersection" and canon(v.func.value) == acc) or \
                             (isinstance(v, ast.BinOp) and isinstance(v.op, ast.BitAnd) and acc in (canon(v.left), canon(v.right)))
                     if isect:
-                        facts = common.facts_at(ctx, f, n, "n")
+                        facts = set(common.facts_at(ctx, f, n, "n")) | extra
                         if (f"{acc} is None", False) in facts:
                             n_ok += 1
                         else:
@@ -381,7 +398,7 @@ def c06_f(ctx: Ctx):
                     else:
                         out.append(ctx.viol(R, f, n, f"later matches are not intersected with the running result: `{stmt_key(n, 60)}`"))
                     continue
-                facts = common.facts_at(ctx, f, n, "n")
+                facts = set(common.facts_at(ctx, f, n, "n")) | extra
                 only_none = (f"{acc} is None", True) in facts
                 falsy = any((ft.replace(" ", "") == acc and not pol) or (ft.replace(" ", "") in (f"len({acc})==0", f"{acc}==set()") and pol) for (ft, pol) in facts)
                 if only_none and not falsy:
@@ -684,6 +701,17 @@ def c06_k(ctx: Ctx):
             evl.run(br.body)
             clo = evl.closures.get("op")
             if clo is None:
+                # functools.partial(isclose, rel_tol=.., abs_tol=..) bound to a local: the evaluation loop calls it as p(value, argument)
+                parts = [v for v in evl.env.values() if isinstance(v, A.App) and v.fn == "partial:isclose"]
+                if len(parts) == 1 and all(isinstance(x, tuple) and x[0] == "kw" for x in parts[0].args):
+                    kw = {x[1]: x[2] for x in parts[0].args}
+                    got = (evl.env.get("argument", A.UNK), kw.get("rel_tol", A.Const(1e-9)), kw.get("abs_tol", A.Const(0.0)))
+                    if got == want:
+                        out.append(ctx.ok(R, f, br, f"$near argument {label}: isclose(value, {got[0]}, rel_tol={got[1]}, abs_tol={got[2]})", construct=k))
+                    else:
+                        out.append(ctx.viol(R, f, br, f"$near argument {label}: isclose receives (reference={got[0]}, rel_tol={got[1]}, abs_tol={got[2]}) but the documented meaning is "
+                                            f"(reference={want[0]}, rel_tol={want[1]}, abs_tol={want[2]}): jobs are matched with a tolerance the filter did not ask for", construct=k))
+                    continue
                 raise A.GiveUp("the branch does not define the comparison closure `op`", br)
             fn = clo[0]
             calls = [c for c in ast.walk(fn) if isinstance(c, ast.Call) and (dotted(c.func) or "").split(".")[-1] == "isclose"]
